@@ -19,6 +19,23 @@ Theorem C03_get : forall (Vs : list (@vrec (option bytes))) cur k rv,
 Proof. exact c03_get. Qed.
 Print Assumptions C03_get.
 
+(* Get with revision 0 reads the newest STORED version (range.go:92-94); it is a read at the reported revision cur exactly
+   when nothing above cur is stored (Example C03_get_zero_reads_unpublished: otherwise it differs from List at 0) *)
+Theorem C03_get_current : forall (V : list (@vrec bytes)) cur k, wf_store V -> alpha k ->
+  (forall x, In x V -> vr_rev x <= cur) -> cur < two64 ->
+  get_model (raw_of V) cur k 0 =
+  match find_key k (snapshot V cur) with
+  | Some (v, r) => GetResp (N.max cur r) (Some (v, r))
+  | None => GetResp cur None
+  end.
+Proof. exact get_model_current. Qed.
+Print Assumptions C03_get_current.
+
+(* the snapshot lists every key at most once, in key order (what makes find_key's "first match" the only match) *)
+Theorem C03_snapshot_key_sorted : forall (V : list (@vrec bytes)) R, StronglySorted olt (snapshot V R).
+Proof. exact snapshot_sorted. Qed.
+Print Assumptions C03_snapshot_key_sorted.
+
 (* range read with and without limit: the in-range snapshot, cut at the limit, `more` iff it was cut *)
 Theorem C03_range : forall (Vs : list (@vrec (option bytes))) fv cur a b rev (limit : Z),
   wf_store Vs -> no_marker Vs -> alpha a -> alpha b -> bcmp a b = Lt ->
@@ -181,10 +198,10 @@ Print Assumptions C03_check_valid_none.
 
 (* read level, without marker values: on the engine image of any well-formed client history without marker values the
    oracle accepts what the model answers to Get (explicit revision), List and Count *)
-Theorem C03_oracle_sound_partial : forall Vs compat fv cur floor q, wf_store Vs -> no_marker Vs -> read_valid fv cur q ->
+Theorem C03_read_verdict_ideal_layout : forall Vs compat fv cur floor q, wf_store Vs -> no_marker Vs -> read_valid fv cur q ->
   read_is_model Vs fv cur q -> read_verdict false Vs compat cur floor q = None.
 Proof. exact c03_read_verdict_none. Qed.
-Print Assumptions C03_oracle_sound_partial.
+Print Assumptions C03_read_verdict_ideal_layout.
 
 (* ---------- findings ---------- *)
 Definition w_a : bytes := [47; 114; 47; 97].   (* "/r/a" *)
@@ -324,3 +341,22 @@ Example C03_engine_assumption_inhabited :
     (hist_versions [WCreate w_a [120] 101 true; WCreate w_b [121] 102 true; WUpdate w_a [122] 101 103 true; WDelete w_b 102 104 true;
                     WCreate w_b [119] 105 true]) 103.
 Proof. split; vm_compute; reflexivity. Qed.
+
+(* a version stored above the reported revision (acknowledged, not yet published): Get(k, 0) returns it, List at 0 does not *)
+Example C03_get_zero_reads_unpublished :
+  let V := [(w_a, 0, be64 103); (w_a, 101, [120]); (w_a, 103, [122])] in
+  get_model (raw_of V) 101 w_a 0 = GetResp 103 (Some ([122], 103)) /\
+  list_model (raw_of V) None single_part 101 [47; 114; 47] [47; 114; 48] 0 0 = LResp 101 [(w_a, [120], 101)] false /\
+  get_model (raw_of V) 103 w_a 0 = GetResp 103 (Some ([122], 103)).
+Proof. repeat split; vm_compute; reflexivity. Qed.
+
+Example C03_bytes_inhabited :
+  wf_store ex_small /\ alpha w_a /\ In (w_a, 103, [121]) ex_small /\ [121] <> tombstone /\
+  (forall y, In y ex_small -> vr_key y = w_a -> vr_rev y <= 105 -> vr_rev y <= 103) /\
+  get_model (raw_of ex_small) 105 w_a 105 = GetResp 105 (Some ([121], 103)).
+Proof.
+  split; [split; [repeat constructor|repeat constructor; cbn; unfold two64; lia]|].
+  split; [repeat constructor|]. split; [cbn; tauto|]. split; [discriminate|]. split.
+  - intros y [<-|[<-|[<-|[]]]] _ _; cbn; lia.
+  - vm_compute. reflexivity.
+Qed.
